@@ -82,7 +82,7 @@ func (d *Deliver) IEncode() ([]byte, error) {
 	defer b.Release()
 
 	smgp.WriteHeaderNoLength(d.Header, b)
-	b.WriteFixedLenString(d.MsgID, 10)
+	b.WriteFixedLenString(msgIDOctets(d.MsgID), msgIDLength)
 	b.WriteUint8(d.IsReport)
 	b.WriteUint8(d.MsgFormat)
 	b.WriteFixedLenString(d.RecvTime, 14)
@@ -171,8 +171,7 @@ func (d *DeliverResp) IEncode() ([]byte, error) {
 	defer b.Release()
 
 	smgp.WriteHeaderNoLength(d.Header, b)
-	msgID, _ := hex.DecodeString(d.MsgID)
-	b.WriteFixedLenString(string(msgID), 10)
+	b.WriteFixedLenString(msgIDOctets(d.MsgID), msgIDLength)
 	b.WriteUint32(d.Result.Data())
 
 	return b.BytesWithLength()
